@@ -1,7 +1,261 @@
-(* C14 -- placeholder while the harness is brought up; replaced by the real statements *)
-From Coq Require Import List String.
-From V Require Import Model.ExprTree Model.Lexer Model.Parser Gen.GrammarGen.
+(* C14 -- The parser follows the documented grammar and rejects everything else cleanly.
+   Statements only; every proof is `exact <lemma>` (Proofs/ParserProofs.v, ParserProofs2.v, LexerProofs.v) or a
+   closed computation.  The precedence tuple, productions, token list, reserved words and lexer regexes are
+   REGENERATED from parserYacc.py / parserLex.py (Gen/GrammarGen.v) on every run; the model parser reads its
+   binding powers from that table, so these theorems are re-checked against what the source says now.
+
+   tv  : text of a time literal -> its value (None: rejected)      -- astropy, external, universally quantified
+   tun : a time value -> a text that a repaired printer would write; tshow : what str(Time) writes
+   ev f x := exists n, forall fuel >= n, f fuel = POk x            -- "for all large enough fuel" (never PFuel) *)
+From Coq Require Import ZArith List Bool String Ascii Lia.
+From V Require Import Model.ExprTree Model.Lexer Model.Parser Gen.GrammarGen
+                      Proofs.ParserProofs Proofs.ParserProofs2 Proofs.LexerProofs.
 Import ListNotations.
-Theorem gen_flags_expected : GrammarGen.lex_flags = ["IGNORECASE"; "VERBOSE"]%string.
+Open Scope string_scope.
+Open Scope list_scope.
+
+(* ===================================================================== tie T: the tables the model was written for *)
+Theorem gen_precedence_expected :
+  GrammarGen.precedence =
+  [(ALeft, ["OR"]); (ALeft, ["AND"]); (ANon, ["OVERLAPS"]); (ANon, ["EQ"; "NE"]); (ANon, ["LT"; "LE"; "GT"; "GE"]);
+   (ALeft, ["ADD"; "SUB"]); (ALeft, ["MUL"; "DIV"; "MOD"]); (ARight, ["UPLUS"; "UMINUS"; "NOT"])].
 Proof. reflexivity. Qed.
-Print Assumptions gen_flags_expected.
+Print Assumptions gen_precedence_expected.
+
+Theorem gen_productions_expected :
+  GrammarGen.productions =
+  [("input", ["expr"]); ("input", ["empty"]); ("empty", []);
+   ("expr", ["expr"; "OR"; "expr"]); ("expr", ["expr"; "AND"; "expr"]); ("expr", ["NOT"; "expr"]); ("expr", ["bool_primary"]);
+   ("bool_primary", ["bool_primary"; "EQ"; "predicate"]); ("bool_primary", ["bool_primary"; "NE"; "predicate"]);
+   ("bool_primary", ["bool_primary"; "LT"; "predicate"]); ("bool_primary", ["bool_primary"; "LE"; "predicate"]);
+   ("bool_primary", ["bool_primary"; "GE"; "predicate"]); ("bool_primary", ["bool_primary"; "GT"; "predicate"]);
+   ("bool_primary", ["bool_primary"; "OVERLAPS"; "predicate"]); ("bool_primary", ["predicate"]);
+   ("predicate", ["bit_expr"; "IN"; "LPAREN"; "literal_or_id_list"; "RPAREN"]);
+   ("predicate", ["bit_expr"; "NOT"; "IN"; "LPAREN"; "literal_or_id_list"; "RPAREN"]);
+   ("predicate", ["bit_expr"]);
+   ("identifier", ["SIMPLE_IDENTIFIER"]); ("identifier", ["QUALIFIED_IDENTIFIER"]);
+   ("literal_or_id_list", ["literal_or_id_list"; "COMMA"; "literal"]);
+   ("literal_or_id_list", ["literal_or_id_list"; "COMMA"; "identifier"]);
+   ("literal_or_id_list", ["literal_or_id_list"; "COMMA"; "bind_name"]);
+   ("literal_or_id_list", ["literal"]); ("literal_or_id_list", ["identifier"]); ("literal_or_id_list", ["bind_name"]);
+   ("bind_name", ["BIND_NAME"]);
+   ("bit_expr", ["bit_expr"; "ADD"; "bit_expr"]); ("bit_expr", ["bit_expr"; "SUB"; "bit_expr"]);
+   ("bit_expr", ["bit_expr"; "MUL"; "bit_expr"]); ("bit_expr", ["bit_expr"; "DIV"; "bit_expr"]);
+   ("bit_expr", ["bit_expr"; "MOD"; "bit_expr"]); ("bit_expr", ["simple_expr"]);
+   ("simple_expr", ["literal"]); ("simple_expr", ["identifier"]); ("simple_expr", ["bind_name"]);
+   ("simple_expr", ["function_call"]);
+   ("simple_expr", ["ADD"; "simple_expr"; "%prec"; "UPLUS"]); ("simple_expr", ["SUB"; "simple_expr"; "%prec"; "UMINUS"]);
+   ("simple_expr", ["LPAREN"; "expr"; "RPAREN"]); ("simple_expr", ["LPAREN"; "expr"; "COMMA"; "expr"; "RPAREN"]);
+   ("literal", ["NUMERIC_LITERAL"]);
+   ("literal", ["ADD"; "NUMERIC_LITERAL"; "%prec"; "UPLUS"]); ("literal", ["SUB"; "NUMERIC_LITERAL"; "%prec"; "UMINUS"]);
+   ("literal", ["STRING_LITERAL"]); ("literal", ["TIME_LITERAL"]); ("literal", ["RANGE_LITERAL"]);
+   ("function_call", ["SIMPLE_IDENTIFIER"; "LPAREN"; "expr_list"; "RPAREN"]);
+   ("expr_list", ["expr_list"; "COMMA"; "expr"]); ("expr_list", ["expr"]); ("expr_list", ["empty"])].
+Proof. reflexivity. Qed.
+Print Assumptions gen_productions_expected.
+
+Theorem gen_lexer_tables_expected :
+  GrammarGen.reserved = [("IN", "IN"); ("OR", "OR"); ("AND", "AND"); ("NOT", "NOT"); ("OVERLAPS", "OVERLAPS")] /\
+  GrammarGen.tokens =
+    ["NUMERIC_LITERAL"; "TIME_LITERAL"; "STRING_LITERAL"; "RANGE_LITERAL"; "QUALIFIED_IDENTIFIER"; "SIMPLE_IDENTIFIER";
+     "BIND_NAME"; "LPAREN"; "RPAREN"; "EQ"; "NE"; "LT"; "LE"; "GT"; "GE"; "ADD"; "SUB"; "MUL"; "DIV"; "MOD"; "COMMA";
+     "IN"; "OR"; "AND"; "NOT"; "OVERLAPS"] /\
+  GrammarGen.lex_ignore = " \t" /\ GrammarGen.lex_flags = ["IGNORECASE"; "VERBOSE"].
+Proof. repeat split; reflexivity. Qed.
+Print Assumptions gen_lexer_tables_expected.
+
+Theorem gen_lex_rules_expected :
+  GrammarGen.lex_rules =
+  [("newline", "\n+"); ("TIME_LITERAL", "T'.*?'"); ("STRING_LITERAL", "'.*?'");
+   ("RANGE_LITERAL", "(?P<start>-?\d+)\s*\.\.\s*(?P<stop>-?\d+)(\s*:\s*(?P<stride>[1-9]\d*))?");
+   ("NUMERIC_LITERAL", "\d+(\.\d*)?(e[-+]?\d+)?|\.\d+(e[-+]?\d+)?");
+   ("QUALIFIED_IDENTIFIER", "[a-zA-Z_][a-zA-Z0-9_]*(\.[a-zA-Z_][a-zA-Z0-9_]*){1,2}");
+   ("SIMPLE_IDENTIFIER", "[a-zA-Z_][a-zA-Z0-9_]*"); ("BIND_NAME", "[:][a-zA-Z_][a-zA-Z0-9_]*");
+   ("ADD", "\+"); ("GE", ">="); ("LE", "<="); ("LPAREN", "\("); ("MUL", "\*"); ("NE", "!="); ("RPAREN", "\)");
+   ("COMMA", ","); ("DIV", "/"); ("EQ", "="); ("GT", ">"); ("LT", "<"); ("MOD", "%"); ("SUB", "-")].
+Proof. reflexivity. Qed.
+Print Assumptions gen_lex_rules_expected.
+
+(* the documented order ("same as C++ or Python"), read off the generated table through the model's lvl/asc *)
+Theorem table_order :
+  lvl BOr < lvl BAnd /\ lvl BAnd < not_lvl /\
+  lvl BAdd = lvl BSub /\ lvl BSub < lvl BMul /\ lvl BMul = lvl BDiv /\ lvl BDiv = lvl BMod /\ 1 <= lvl BOr /\ 1 <= lvl BAdd /\
+  forall o, (is_logic o || is_arith o) = true -> asc o = ALeft.
+Proof. repeat split; try (vm_compute; lia). intros o H; destruct o; try discriminate H; reflexivity. Qed.
+Print Assumptions table_order.
+
+(* ===================================================================== round trip (token level, unbounded trees) *)
+(* canonical t: t is a tree the grammar can produce (stratified levels, Parens exactly where written, operands of an
+   operator of level p have level >= p on the left and > p on the right, signed literals only inside IN lists, time
+   values that print back to a parseable text) *)
+
+(* full strength, for the printer a repaired __str__ would be (T'..' and :name kept) *)
+Theorem parse_print : forall tv tun t,
+  canonical tv tun t = true -> ev (fun fuel => parse tv fuel (print_fix tun t)) (Some t).
+Proof. exact parse_print_fix_p. Qed.
+Print Assumptions parse_print.
+
+(* what holds for the printer that exists (Node.__str__): the same, for trees without TimeLiteral / BindName *)
+Theorem parse_print_partial : forall tv tun tshow t,
+  canonical tv tun t = true -> plain t = true -> ev (fun fuel => parse tv fuel (print tshow t)) (Some t).
+Proof. exact parse_print_p. Qed.
+Print Assumptions parse_print_partial.
+
+(* ... and it fails exactly there: witnesses replayed on the implementation = known finding F-C14-str-time *)
+Theorem parse_print_bind_refuted : forall tv tun tshow x,
+  canonical tv tun (Bind x) = true /\ forall fuel, parse tv fuel (print tshow (Bind x)) <> POk (Some (Bind x)).
+Proof. exact print_bind_refuted_p. Qed.
+Print Assumptions parse_print_bind_refuted.
+
+Theorem parse_print_time_refuted : forall tv tshow v fuel,
+  parse tv fuel (print tshow (Time v)) <> POk (Some (Time v)).
+Proof. exact print_time_refuted_p. Qed.
+Print Assumptions parse_print_time_refuted.
+
+Theorem paren_redundant : forall tv tun t,
+  canonical tv tun t = true -> ev (fun fuel => parse tv fuel (TLP :: print_fix tun t ++ [TRP])) (Some (Parens t)).
+Proof. exact paren_redundant_p. Qed.
+Print Assumptions paren_redundant.
+
+(* non-vacuity: a = b OR NOT c + d * - e NOT IN (1, -2, 3..9:2, :x) AND (f(g, 'h') < T'..' OR (u, v) OVERLAPS POINT(1, 2)) *)
+Definition tv_id (s : string) : option string := Some s.
+Definition sample_tree : tree :=
+  Binary (Binary (Ident "a") BEq (Ident "b")) BOr
+    (Binary (Unary UNot (IsIn (Binary (Ident "c") BAdd (Binary (Ident "d.e") BMul (Unary UMinus (Ident "e"))))
+                              [Num "1"; Num "-2"; Range 3 9 (Some 2%Z); Bind "x"] true)) BAnd
+       (Parens (Binary (Binary (Call "f" [Ident "g"; Str "h"]) BLt (Time "2020-01-01")) BOr
+                  (Binary (Tuple (Ident "u") (Ident "v")) BOverlaps (Point (Num "1") (Num "2")))))).
+Example sample_is_canonical : canonical tv_id (fun v => v) sample_tree = true.
+Proof. vm_compute. reflexivity. Qed.
+Example sample_round_trip : parse_tokens tv_id (print_fix (fun v => v) sample_tree) = POk (Some sample_tree).
+Proof. vm_compute. reflexivity. Qed.
+Example sample_plain_is_canonical :
+  canonical tv_id (fun v => v) (Binary (Ident "a") BOr (Binary (Ident "b") BAnd (Unary UNot (Ident "c")))) = true /\
+  plain (Binary (Ident "a") BOr (Binary (Ident "b") BAnd (Unary UNot (Ident "c")))) = true.
+Proof. vm_compute. auto. Qed.
+(* not canonical: what the parser can never return *)
+Example non_canonical :
+  canonical tv_id (fun v => v) (Binary (Ident "a") BAnd (Binary (Ident "b") BOr (Ident "c"))) = false /\
+  canonical tv_id (fun v => v) (Binary (Ident "a") BSub (Binary (Ident "b") BSub (Ident "c"))) = false /\
+  canonical tv_id (fun v => v) (Binary (Ident "a") BAdd (Num "-1")) = false.
+Proof. vm_compute. auto. Qed.
+
+(* ===================================================================== precedence and associativity, every operator pair *)
+Theorem prec_pairs : forall tv o1 o2 a b c,
+  (is_logic o1 && is_logic o2 || is_arith o1 && is_arith o2) = true ->
+  parse_tokens tv (tri a o1 b o2 c) =
+  POk (Some (if Nat.ltb (lvl o1) (lvl o2) then right_nested a o1 b o2 c else left_nested a o1 b o2 c)).
+Proof. exact prec_pairs_p. Qed.
+Print Assumptions prec_pairs.
+
+Theorem cmp_left_nested : forall tv o1 o2 a b c, is_cmp o1 = true -> is_cmp o2 = true ->
+  parse_tokens tv (tri a o1 b o2 c) = POk (Some (left_nested a o1 b o2 c)).
+Proof. exact cmp_left_nested_p. Qed.
+Print Assumptions cmp_left_nested.
+
+Theorem class_order : forall tv oa oc ol a b c,
+  is_arith oa = true -> is_cmp oc = true -> is_logic ol = true ->
+  parse_tokens tv (tri a oa b oc c) = POk (Some (left_nested a oa b oc c)) /\
+  parse_tokens tv (tri a oc b oa c) = POk (Some (right_nested a oc b oa c)) /\
+  parse_tokens tv (tri a oc b ol c) = POk (Some (left_nested a oc b ol c)) /\
+  parse_tokens tv (tri a ol b oc c) = POk (Some (right_nested a ol b oc c)) /\
+  parse_tokens tv (tri a oa b ol c) = POk (Some (left_nested a oa b ol c)) /\
+  parse_tokens tv (tri a ol b oa c) = POk (Some (right_nested a ol b oa c)).
+Proof. exact class_order_p. Qed.
+Print Assumptions class_order.
+
+Theorem not_placement : forall tv oc ol a b,
+  is_cmp oc = true -> is_logic ol = true ->
+  parse_tokens tv [TNOT; TId a; bop_token oc; TId b] = POk (Some (Unary UNot (Binary (Ident a) oc (Ident b)))) /\
+  parse_tokens tv [TNOT; TId a; bop_token ol; TId b] = POk (Some (Binary (Unary UNot (Ident a)) ol (Ident b))) /\
+  parse_tokens tv [TNOT; TId a; TIN; TLP; TId b; TRP] = POk (Some (Unary UNot (IsIn (Ident a) [Ident b] false))) /\
+  parse_tokens tv [TNOT; TNOT; TId a] = POk (Some (Unary UNot (Unary UNot (Ident a)))).
+Proof. exact not_placement_p. Qed.
+Print Assumptions not_placement.
+
+Theorem unary_sign : forall tv oa a b n,
+  is_arith oa = true ->
+  parse_tokens tv [TSUB; TId a; bop_token oa; TId b] = POk (Some (Binary (Unary UMinus (Ident a)) oa (Ident b))) /\
+  parse_tokens tv [TId a; bop_token oa; TSUB; TId b] = POk (Some (Binary (Ident a) oa (Unary UMinus (Ident b)))) /\
+  parse_tokens tv [TSUB; TNum n] = POk (Some (Unary UMinus (Num n))) /\
+  parse_tokens tv [TId a; TIN; TLP; TSUB; TNum n; TCOMMA; TADD; TNum n; TRP] =
+    POk (Some (IsIn (Ident a) [Num (String "-"%char n); Num (String "+"%char n)] false)).
+Proof. exact unary_sign_p. Qed.
+Print Assumptions unary_sign.
+
+(* concrete documented facts that a changed precedence row would break *)
+Theorem documented_precedence : forall tv a b c,
+  parse_tokens tv [TId a; TOR; TId b; TAND; TId c] = POk (Some (Binary (Ident a) BOr (Binary (Ident b) BAnd (Ident c)))) /\
+  parse_tokens tv [TId a; TAND; TId b; TOR; TId c] = POk (Some (Binary (Binary (Ident a) BAnd (Ident b)) BOr (Ident c))) /\
+  parse_tokens tv [TId a; TADD; TId b; TMUL; TId c] = POk (Some (Binary (Ident a) BAdd (Binary (Ident b) BMul (Ident c)))) /\
+  parse_tokens tv [TId a; TMOD; TId b; TSUB; TId c] = POk (Some (Binary (Binary (Ident a) BMod (Ident b)) BSub (Ident c))) /\
+  parse_tokens tv [TId a; TSUB; TId b; TSUB; TId c] = POk (Some (Binary (Binary (Ident a) BSub (Ident b)) BSub (Ident c))) /\
+  parse_tokens tv [TId a; TDIV; TId b; TDIV; TId c] = POk (Some (Binary (Binary (Ident a) BDiv (Ident b)) BDiv (Ident c))) /\
+  parse_tokens tv [TNOT; TId a; TAND; TId b] = POk (Some (Binary (Unary UNot (Ident a)) BAnd (Ident b))).
+Proof. intros. repeat split; reflexivity. Qed.
+Print Assumptions documented_precedence.
+
+Theorem rejects : forall tv a b,
+  parse_tokens tv [TId a; TIN; TLP; TId b; TRP; TIN; TLP; TId b; TRP] = PErr ESyntax /\
+  parse_tokens tv [TId a; TNOT; TId b] = PErr ESyntax /\
+  parse_tokens tv [TId a; TIN; TLP; TRP] = PErr ESyntax /\
+  parse_tokens tv [TLP; TRP] = PErr ESyntax /\
+  parse_tokens tv [TId a; TId b] = PErr ESyntax /\
+  parse_tokens tv [TId a; TEQ] = PErr ESyntax /\
+  parse_tokens tv [TId a; TIN; TLP; TLP; TId b; TRP; TRP] = PErr ESyntax /\
+  parse_tokens tv [TId a; TEQ; TId b; TBad] = PErr ESyntax /\
+  parse_tokens tv [TId "POINT"; TLP; TNum "1"; TRP] = PErr EArity /\
+  parse_tokens tv [] = POk None.
+Proof. exact rejects_p. Qed.
+Print Assumptions rejects.
+
+(* the faithful model accepts a string outside the documented grammar (known finding F-C14-call-comma) *)
+Theorem call_leading_comma_refuted : forall tv,
+  exists ts t, hd_error (skipn 2 ts) = Some TCOMMA /\ parse_tokens tv ts = POk (Some t).
+Proof. exact call_leading_comma_refuted_p. Qed.
+Print Assumptions call_leading_comma_refuted.
+
+(* ===================================================================== lexer *)
+Theorem keyword_case : forall s, keyword_of (upper s) = keyword_of s.
+Proof. exact keyword_case_p. Qed.
+Print Assumptions keyword_case.
+
+Theorem keyword_same_case : forall s1 s2, upper s1 = upper s2 -> keyword_of s1 = keyword_of s2.
+Proof. exact keyword_same_case_p. Qed.
+Print Assumptions keyword_same_case.
+
+Theorem classify_spec : forall s,
+  classify s =
+  if String.eqb "IN" (upper s) then TIN else if String.eqb "OR" (upper s) then TOR
+  else if String.eqb "AND" (upper s) then TAND else if String.eqb "NOT" (upper s) then TNOT
+  else if String.eqb "OVERLAPS" (upper s) then TOVERLAPS else TId s.
+Proof. exact classify_spec_p. Qed.
+Print Assumptions classify_spec.
+
+Theorem lex_skip_ws : forall ws l fuel,
+  forallb is_ws ws = true -> lex_chars (List.length ws + fuel) (ws ++ l) = lex_chars fuel l.
+Proof. exact lex_skip_ws_p. Qed.
+Print Assumptions lex_skip_ws.
+
+Theorem number_value : forall ds r, ds <> [] -> forallb is_digit ds = true -> not_digit_next r ->
+  m_int (ds ++ r) = Some (digits_val ds, r) /\ m_int ("-"%char :: ds ++ r) = Some ((- digits_val ds)%Z, r).
+Proof. exact m_int_value. Qed.
+Print Assumptions number_value.
+
+Theorem digits_positional : forall ds d, digits_val (ds ++ [d]) = (digits_val ds * 10 + digit_val d)%Z.
+Proof. exact digits_val_snoc. Qed.
+Print Assumptions digits_positional.
+
+Theorem range_value : forall a b r,
+  a <> [] -> b <> [] -> forallb is_digit a = true -> forallb is_digit b = true -> plain_next r ->
+  m_range (a ++ "."%char :: "."%char :: b ++ r) = Some (TRange (digits_val a) (digits_val b) None, r).
+Proof. exact range_value_p. Qed.
+Print Assumptions range_value.
+
+Example range_value_hyps :
+  let a := list_ascii_of_string "130" in let b := list_ascii_of_string "145" in let r := list_ascii_of_string ")" in
+  a <> [] /\ b <> [] /\ forallb is_digit a = true /\ forallb is_digit b = true /\ plain_next r /\
+  m_range (a ++ "."%char :: "."%char :: b ++ r) = Some (TRange 130 145 None, r).
+Proof. vm_compute. repeat split; try discriminate; auto. Qed.
+Example keyword_case_example : keyword_of "aNd" = Some TAND /\ keyword_of "android" = None /\ upper "aNd" = "AND".
+Proof. vm_compute. auto. Qed.
